@@ -95,6 +95,114 @@ func spyReceiver(kind string, mode int) any {
 	return root
 }
 
+// c11MapVerdicts: "the same answer when repeated" where the library walks something whose order the Go
+// runtime picks anew every time - a map leaf. Two structures whose map leaves (2, 3, 8 entries; as element,
+// as a Condition's expression, inside a []any leaf) are equal, or differ in the value under exactly one key:
+// the same question 300 times, both ways round; every answer is the first answer. (The iteration order is
+// the runtime's, not the harness's: this pass repeats instead of enumerating.)
+func c11MapVerdicts(c *Ctx) int {
+	n := 0
+	mk := func(size, changed int, place int) any {
+		m := map[string]int{}
+		for i := 0; i < size; i++ {
+			m[fmt.Sprintf("k%d", i)] = i
+		}
+		if changed >= 0 {
+			m[fmt.Sprintf("k%d", changed)] = 1000
+		}
+		switch place {
+		case 1:
+			return stackage.And().Push("a", stackage.Cond("k", stackage.Eq, m))
+		case 2:
+			return stackage.List().Push([]any{"x", m}, "b")
+		case 3:
+			return stackage.Cond("top", stackage.Ne, m)
+		}
+		return stackage.Or().Push(m, "b")
+	}
+	isEq := func(a, b any) error {
+		if st, ok := a.(stackage.Stack); ok {
+			return st.IsEqual(b)
+		}
+		return a.(stackage.Condition).IsEqual(b)
+	}
+	type job struct{ size, changed, place int }
+	var jobs []job
+	for _, size := range []int{2, 3, 8} {
+		for changed := -1; changed < size; changed++ {
+			for place := 0; place < 4; place++ {
+				jobs = append(jobs, job{size, changed, place})
+			}
+		}
+	}
+	parallelFor(len(jobs), func(i int) {
+		j := jobs[i]
+		a, b := mk(j.size, -1, j.place), mk(j.size, j.changed, j.place)
+		for dir, pair := range [][2]any{{a, b}, {b, a}} {
+			var first error
+			for rep := 0; rep < 300; rep++ {
+				var err error
+				if p := noPanic(func() { err = isEq(pair[0], pair[1]) }); p != "" {
+					c.Violation("map-leaf:panic", fmt.Sprintf("IsEqual panicked on a pair with a map leaf of %d entries: %s", j.size, p), nil, j.size)
+					return
+				}
+				c.Transitions.Add(1)
+				if rep == 0 {
+					first = err // (whether the verdict is the right one is C05's subject)
+					continue
+				}
+				if (err == nil) != (first == nil) {
+					c.Violation("unstable-answer:IsEqual:map-leaf", fmt.Sprintf("IsEqual (direction %d) on two untouched structures whose map leaves of %d entries %s answers %v the first time and %v the %dth time", dir, j.size, map[bool]string{true: "are equal", false: fmt.Sprintf("differ in the value under key k%d", j.changed)}[j.changed < 0], first, err, rep+1), nil, j.size)
+					return
+				}
+			}
+		}
+	})
+	n = len(jobs)
+	return n
+}
+
+// userPanic is what the harness's own closures panic with when they stand for user code that fails by
+// panicking (an index out of range in somebody's unmarshaler). The library owes such a caller nothing but
+// this: the query that was aborted leaves no trace either.
+type userPanic struct{ what string }
+
+// c11PanicReceivers are only put through the purity pass (a panic would end the other passes).
+func c11PanicReceivers() []c11Recv {
+	var out []c11Recv
+	for mode := 0; mode < 4; mode++ {
+		mode := mode
+		out = append(out, c11Recv{fmt.Sprintf("AND/closures-that-panic/mode%d", mode), func() any {
+			s := stackage.And().Push("a",
+				stackage.List().SetUnmarshaler(func(...any) ([]any, error) { panic(userPanic{"nested unmarshaler"}) }).Push("u"),
+				stackage.Cond("ck", stackage.Eq, "cv").SetUnmarshaler(func(...any) ([]any, error) { panic(userPanic{"condition unmarshaler"}) }).
+					SetEvaluator(func(...any) (any, error) { panic(userPanic{"evaluator"}) }),
+				stackage.Or().SetPresentationPolicy(func(...any) string { panic(userPanic{"presentation"}) }).Push("p"),
+				stackage.Not().SetValidityPolicy(func(...any) error { panic(userPanic{"validity"}) }).Push("v"),
+				stackage.Cond("ek", stackage.Ne, "ev").SetEqualityPolicy(func(any, any) error { panic(userPanic{"equality"}) }))
+			if mode&1 != 0 {
+				s.SetMutex()
+			}
+			if mode&2 != 0 {
+				s.SetReadOnly(true)
+			}
+			return s
+		}}, c11Recv{fmt.Sprintf("LIST/own-closures-panic/mode%d", mode), func() any {
+			s := stackage.List().Push("a", stackage.Or().Push("n")).SetErr(errCat)
+			s.SetUnmarshaler(func(...any) ([]any, error) { panic(userPanic{"unmarshaler"}) }).SetValidityPolicy(func(...any) error { panic(userPanic{"validity"}) }).
+				SetEqualityPolicy(func(any, any) error { panic(userPanic{"equality"}) }).SetLessFunc(func(i, j int) bool { panic(userPanic{"less"}) })
+			if mode&1 != 0 {
+				s.SetMutex()
+			}
+			if mode&2 != 0 {
+				s.SetReadOnly(true)
+			}
+			return s
+		}})
+	}
+	return out
+}
+
 func c11Receivers(quick bool) []c11Recv {
 	var out []c11Recv
 	vp := func(...any) error { return nil }
@@ -274,6 +382,13 @@ func c11Receivers(quick bool) []c11Recv {
 					s.SetPresentationPolicy(func(...any) string { schedUserPoint("presentation"); return "PRESENTED" })
 				}
 				s.Push("a", yieldingLeaf{"leaf"}, stackage.Or().Push("n"))
+				// nested instances with closures of their own (all of them scheduling points as well)
+				s.Push(stackage.Cond("ck", stackage.Eq, "cv").
+					SetUnmarshaler(func(...any) ([]any, error) { schedUserPoint("condition-unmarshaler"); return []any{"CUSTOM-ROW"}, nil }).
+					SetValidityPolicy(func(...any) error { schedUserPoint("condition-validity"); return nil }).
+					SetEqualityPolicy(func(a, b any) error { schedUserPoint("condition-equality"); return nil }).
+					SetEvaluator(func(...any) (any, error) { schedUserPoint("condition-evaluator"); return 1, nil }),
+					stackage.List().SetUnmarshaler(func(...any) ([]any, error) { schedUserPoint("nested-unmarshaler"); return []any{"CUSTOM-LIST"}, nil }).Push("u"))
 				if mode&1 != 0 {
 					s.SetMutex()
 				}
@@ -488,11 +603,16 @@ func c11Pure(c *Ctx, rv c11Recv, count bool) {
 		}
 		var res1, res2 []reflect.Value
 		var tookLock string
+		userAborted := false
 		p := func() (msg string) {
 			defer func() {
 				if r := recover(); r != nil {
 					if lt, ok := r.(lockTaken); ok {
 						tookLock = lt.ev
+						return
+					}
+					if _, ok := r.(userPanic); ok {
+						userAborted = true // the user's own closure gave up: no answer, and no trace (checked below)
 						return
 					}
 					msg = fmt.Sprint(r)
@@ -529,6 +649,9 @@ func c11Pure(c *Ctx, rv c11Recv, count bool) {
 			x = rv.Mk()
 			pv = reflect.New(reflect.TypeOf(x))
 			pv.Elem().Set(reflect.ValueOf(x))
+			continue
+		}
+		if userAborted {
 			continue
 		}
 		t1, t2 := resultText(res1), resultText(res2)
@@ -810,8 +933,10 @@ func init() {
 		// nothing that accumulates per call (in the instance or in the package) has had a chance to build up
 		c11Repeat(c, recvs)
 		c11Residue(c, recvs)
+		c.Bound["pairs_with_map_leaves_compared_300_times"] = c11MapVerdicts(c)
 		for _, env := range []string{"", c11EnvTag} {
 			stackage.VerifHook = nil
+			recvs := append(append([]c11Recv{}, recvs...), c11PanicReceivers()...)
 			built := make([]any, len(recvs))
 			for i, rv := range recvs {
 				built[i] = rv.Mk()
@@ -887,7 +1012,7 @@ func init() {
 		json.Unmarshal(raw, &cs)
 		env := strings.HasSuffix(cs.Recv, c11EnvTag)
 		cs.Recv = strings.TrimSuffix(cs.Recv, c11EnvTag)
-		for _, rv := range c11Receivers(false) {
+		for _, rv := range append(c11Receivers(false), c11PanicReceivers()...) {
 			if rv.Name == cs.Recv {
 				stackage.VerifHook = nil
 				x := rv.Mk()
